@@ -6,6 +6,7 @@ from ..alg import Rat
 from ..loader import shape_error, anchor_error
 from ..sx import Walker, State
 from .. import orders
+from ..seqx import SeqX, Cat, Sym, Loop, guard
 from ..util import body_nodocstring, names_stored, unparse, const_list
 
 TW = 'tracklib.io.track_writer.TrackWriter'
@@ -121,41 +122,36 @@ def rule_O(ctx):
     ctx.recognise('O.sort(key=TrackWriter.__takeFirst)' in unparse(f.node), 'C13.O', f, 'slots are sorted by column index (first component)', witness={}, node=f.node, key='sort')
     tk = _find(ctx, TW, '__takeFirst')
     ctx.recognise('return elem[0]' in unparse(tk.node), 'C13.O', tk, 'the sort key is the column index', witness={}, node=tk.node, key='key')
-    # __printInOrder: D built [E, N, (U), (T)], printed D[O[k][1]] for k = 0, 1, 2, 3 in this order
+    # __printInOrder: the k-th printed field is the datum whose rank is paired with the k-th smallest column index
+    import itertools
     p = _find(ctx, TW, '__printInOrder')
     pb = body_nodocstring(p)
+    pn = p.params
+    if len(pn) != 7:
+        raise shape_error('__printInOrder: expected (E, N, U, T, headerAF, O, sep)', p.loc())
     for hasU in (True, False):
         for hasT in (True, False):
-            seq = []
-
-            def walk(stmts):
-                for s in stmts:
-                    if isinstance(s, ast.If):
-                        t = unparse(s.test)
-                        if t == 'U is not None':
-                            walk(s.body if hasU else s.orelse)
-                        elif t == 'T is not None':
-                            walk(s.body if hasT else s.orelse)
-                        else:
-                            raise shape_error('__printInOrder: unexpected test %s' % t, p.loc(s))
-                    else:
-                        for n in ast.walk(s):
-                            if isinstance(n, ast.Subscript) and unparse(n.value) == 'D':
-                                m = re.match(r'^O\[(\d+)\]\[1\]$', unparse(n.slice))
-                                if m:
-                                    seq.append(int(m.group(1)))
-                        if isinstance(s, ast.Expr) and 'D.append' in unparse(s):
-                            seq.append('append:' + unparse(s.value.args[0]))
-            walk(pb)
-            apps = [x for x in seq if isinstance(x, str)]
-            cols = [x for x in seq if isinstance(x, int)]
-            n = 2 + hasU + hasT
-            wantapps = (['append:U'] if hasU else []) + (['append:T'] if hasT else [])
-            ctx.check(apps == wantapps and cols == list(range(n)), 'C13.O', p,
-                      'the k-th printed column is the datum of the k-th smallest column index (k = 0..%d), data list = [E, N%s%s]'
-                      % (n - 1, ', U' if hasU else '', ', T' if hasT else ''),
-                      witness={'data list growth': apps, 'columns printed (slot numbers)': cols}, node=p.node, key='print:%s%s' % (hasU, hasT))
-    ctx.recognise("D = [E, N]" in unparse(p.node), 'C13.O', p, 'the data list starts with [E, N]', witness={}, node=p.node, key='D0')
+            data = ['E', 'N'] + (['U'] if hasU else []) + (['T'] if hasT else [])
+            n = len(data)
+            bad = None
+            for perm in itertools.permutations(range(n)):
+                env = {pn[0]: Sym('E'), pn[1]: Sym('N'), pn[2]: Sym('U') if hasU else None, pn[3]: Sym('T') if hasT else None,
+                       pn[4]: Sym('AFS'), pn[5]: [(k, perm[k]) for k in range(n)], pn[6]: Sym('SEP')}
+                sx = SeqX()
+                paths = guard(lambda: [q for q in sx.run(pb, env) if q.kind == 'return'], p)
+                if len(paths) != 1 or not isinstance(paths[0].value, Cat):
+                    raise shape_error('__printInOrder: returned text not understood', p.loc())
+                out = paths[0].value
+                tail = out.parts[-1] if out.parts else None
+                fields = [repr(x) for x in Cat(out.parts[:-1]).split(Sym('SEP'))]
+                want = ['str(%s).strip()' % data[perm[k]] for k in range(n)]
+                if tail != Sym('AFS') or fields != want:
+                    bad = {'slot table (column index, rank of the datum)': [(k, perm[k]) for k in range(n)], 'printed': repr(out),
+                           'expected fields': want}
+                    break
+            ctx.check(bad is None, 'C13.O', p,
+                      'the k-th printed column is the datum of the k-th smallest column index (k = 0..%d), data list = [E, N%s%s]; the feature columns follow'
+                      % (n - 1, ', U' if hasU else '', ', T' if hasT else ''), witness=bad, node=p.node, key='print:%s%s' % (hasU, hasT))
     # reader: fields[fmt.id_X] for the same four names
     r = _find(ctx, TR, '__readFromCsv')
     t = unparse(r.node)
@@ -184,6 +180,20 @@ def rule_O(ctx):
               witness={'inconsistent tests': bad, 'tests examined': n_tests}, node=r.node, key='presence')
 
 
+def _resolve_tw(ctx, nm):
+    """helpers of TrackWriter that the text interpreter may walk"""
+    if isinstance(nm, tuple):
+        owner, name = nm
+        if owner not in ('TrackWriter', 'self', 'cls'):
+            return None
+        nm = name
+    c = ctx.prog.cls(TW)
+    for k, fi in c.methods.items():
+        if k == nm or k.endswith(nm) and nm.startswith('__'):
+            return fi
+    return None
+
+
 def rule_H(ctx):
     """C13.H format attributes, header option, separator safety"""
     tf = ctx.prog.cls(TF)
@@ -207,15 +217,45 @@ def rule_H(ctx):
     hp = 'h'
     ctx.check('fmt.header = %s' % hp in t and 'if fmt.header > 0:' in t, 'C13.H', f, 'the header option of the writer is the one its header block tests',
               witness={}, node=f.node, key='header-live')
-    # header lines are comment lines for the reader
-    hdr = [n for n in ast.walk(f.node) if isinstance(n, ast.If) and unparse(n.test) == 'fmt.header > 0']
-    ok = bool(hdr)
-    if hdr:
-        writes = [c for c in ast.walk(hdr[0]) if isinstance(c, ast.Call) and getattr(c.func, 'attr', None) == 'write']
-        ok = bool(writes) and all(unparse(c.args[0]).startswith('fmt.cmt +') for c in writes)
+    # header lines are comment lines for the reader: each one starts with the comment mark and ends its line
     rt = unparse(r.node)
-    ctx.recognise(ok and 'line.strip()[0] == fmt.cmt' in rt, 'C13.H', f, 'every header line starts with the comment character the reader skips',
-              witness={}, node=f.node, key='header-comment')
+    fb = body_nodocstring(f)
+    hdr = [k for k, s_ in enumerate(fb) if isinstance(s_, ast.If) and 'header' in unparse(s_.test)]
+    if not hdr:
+        raise shape_error('writeToFile: header block not found', f.loc())
+    pn = f.params
+    n_w = 0
+    for srid in ('ENU', 'GEO', 'ECEF'):
+        for cU in (2, -1):
+            for cT in (3, -1):
+                def decide(tx, srid=srid):
+                    m_ = re.search(r"getSRID\(\)(\.upper\(\))? == '(\w+)'", tx)
+                    if m_:
+                        return m_.group(2) == srid
+                    if tx.startswith('isinstance(') and 'ObsTime' in tx:
+                        return True
+                    return None
+                env = {pn[2]: 0, pn[3]: 1, pn[4]: cU, pn[5]: cT if cU != -1 else (2 if cT != -1 else -1), pn[6]: Sym('SEP'), pn[7]: 1, pn[8]: []}
+                sx = SeqX(resolve=lambda nm: _resolve_tw(ctx, nm), decide=decide)
+                paths = guard(lambda: sx.run(fb[:hdr[-1] + 1], env), f)
+                for q in paths:
+                    if q.kind != 'fall':
+                        continue
+                    for ev_ in q.events:
+                        if ev_[0] == 'call' and ev_[1] == 'write':
+                            n_w += 1
+                            v = ev_[3][0] if ev_[3] else None
+                            v = v if isinstance(v, Cat) else Cat([v if isinstance(v, (str, Sym)) else Sym(repr(v))])
+                            first = v.parts[0] if v.parts else None
+                            okc = isinstance(first, Sym) and first.text.endswith('.cmt')
+                            okn = v.endswith('\n') and sum(x.count('\n') for x in v.parts if isinstance(x, str)) == 1
+                            ctx.check(okc and okn, 'C13.H', f, 'every header line starts with the comment mark the reader skips and ends with exactly one newline',
+                                      witness={'srid': srid, 'U column': cU, 'T column': env[pn[5]], 'line written': repr(v),
+                                               'why': 'a header line without its newline swallows the first data row; one without the comment mark is read as data'},
+                                      node=ev_[5], key='header-line')
+    if n_w < 36:
+        raise shape_error('writeToFile: only %d header writes interpreted' % n_w, f.loc())
+    ctx.recognise('line.strip()[0] == fmt.cmt' in rt, 'C13.H', r, 'the reader skips the lines that start with the comment mark', witness={}, node=r.node, key='header-comment')
     ctx.recognise('for i in range(fmt.header):' in rt, 'C13.H', r, 'the reader skips exactly `header` leading lines', witness={}, node=r.node, key='header-skip')
     ctx.recognise('line.strip().split(fmt.separator)' in rt and 'fmt.separator' in t, 'C13.H', r, 'writer and reader use the same separator attribute', witness={}, node=r.node, key='separator')
     # separator safety: default timestamp print format vs documented separators
@@ -360,6 +400,36 @@ def rule_G(ctx):
               'the value the reader takes as X is the one written from getX() under lon=, the value taken as Y is the one written from getY() under lat=',
               witness={'written line': text.strip(), 'reader takes X from piece': px, 'which holds': '%s (%s, attribute %s)' % (wx, getter.get(wx), attr_of.get(wx)),
                        'reader takes Y from piece': py, 'which holds ': '%s (%s, attribute %s)' % (wy, getter.get(wy), attr_of.get(wy))}, node=wr, key='latlon')
+    # every datum of a <trkpt> block is read from the point the block is written for
+    pl = None
+    for n_ in ast.walk(g.node):
+        if isinstance(n_, ast.For) and any(x is wr for x in ast.walk(n_)):
+            if pl is None or any(x is n_ for x in ast.walk(pl)):
+                pl = n_
+    if pl is None or not isinstance(pl.target, ast.Name):
+        raise shape_error('writeToGpx: the loop over the points not found', g.loc(wr))
+    pv = pl.target.id
+    trackvar = None
+    wpl = Walker(g, loop_mode='skip')
+    rr = wpl.range_info(pl.iter, State())
+    if rr is not None:
+        m_ = re.match(r'^(?:len\((\w+)\)|(\w+)\.size\(\))$', vr(rr[1]))
+        trackvar = (m_.group(1) or m_.group(2)) if m_ else None
+    if trackvar is None:
+        raise shape_error('writeToGpx: the point loop does not run over the indices of a track', g.loc(pl))
+    used = []
+    for n_ in ast.walk(pl):
+        if isinstance(n_, ast.Subscript) and unparse(n_.value) == trackvar:
+            used.append((n_, unparse(n_.slice)))
+        if isinstance(n_, ast.Call) and getattr(n_.func, 'attr', None) in ('getObs', 'getObsAnalyticalFeature') and unparse(n_.func.value) == trackvar and n_.args:
+            used.append((n_, unparse(n_.args[-1])))
+    if len(used) < 4:
+        raise shape_error('writeToGpx: reads of the current point not found', g.loc(pl))
+    for n_, ix in used:
+        ctx.check(ix == pv, 'C13.G', g, 'every datum written in a <trkpt> block (lat, lon, ele, time, features) is read from the point of that block',
+                  witness={'read': unparse(n_), 'index of the block': pv,
+                           'why': 'the point loop runs over %s; a datum indexed by another variable repeats one point\'s value in every block' % pv},
+                  node=n_, key='point-index:' + unparse(n_))
     tags = all(tg in gt for tg in ('<trk>', '<trkpt ', '<ele>', '<time>', '</trkpt>', '</trk>'))
     rtags = "'<' + fmt.type + '>'" in rtxt and "'<' + fmt.type + 'pt '" in rtxt and "'<ele>'" in rtxt and "'<time>'" in rtxt and "'</' + fmt.type + 'pt>'" in rtxt
     ctx.recognise(tags and rtags, 'C13.G', g, 'tags written (<trk>, <trkpt, <ele>, <time>) are the tags searched by the reader', witness={}, node=g.node, key='tags')
@@ -394,27 +464,46 @@ def rule_G(ctx):
 def rule_N(ctx):
     """C13.N network CSV"""
     wfun = ctx.prog.func(NW + '.writeToCsv')
-    t = unparse(wfun.node)
-    order = []
-    for n in ast.walk(wfun.node):
-        if isinstance(n, ast.For) and 'network.EDGES' in unparse(n.iter):
-            for s in n.body:
-                if isinstance(s, ast.AugAssign) and unparse(s.target) == 'output':
-                    order.append(unparse(s.value))
-    cols = []
-    for e in order:
-        if 'edge.id' in e and 'source' not in e and 'target' not in e:
-            cols.append('edge_id')
-        elif 'edge.source.id' in e:
-            cols.append('source')
-        elif 'edge.target.id' in e:
-            cols.append('target')
-        elif 'edge.orientation' in e:
-            cols.append('direction')
-        elif 'toWKT()' in e:
-            cols.append('wkt')
-    ctx.check(cols == ['edge_id', 'source', 'target', 'direction', 'wkt'], 'C13.N', wfun, 'network CSV columns: id, source, target, direction, wkt',
-              witness={'columns written': cols}, node=wfun.node, key='cols')
+    net, pth, sepn, hn = wfun.params[:4]
+    orient_str = False
+    wbody = body_nodocstring(wfun)
+    for h in (1, 0):
+        sx = SeqX()
+        paths = guard(lambda: [p for p in sx.run(wbody, {hn: h, pth: ''}) if p.kind == 'return'], wfun)
+        if len(paths) != 1 or not isinstance(paths[0].value, (Cat, str)):
+            raise shape_error('network writer: the text returned is not understood (h=%d)' % h, wfun.loc())
+        out = paths[0].value if isinstance(paths[0].value, Cat) else Cat([paths[0].value])
+        rows = [x for x in out.parts if isinstance(x, Loop)]
+        head = Cat([x for x in out.parts if not isinstance(x, Loop)])
+        if len(rows) != 1 or '.EDGES' not in rows[0].over:
+            raise shape_error('network writer: one block per edge expected, found %r' % (out,), wfun.loc())
+        fields = Cat(rows[0].parts).split(Sym(sepn))
+        cols = []
+        for fld in fields:
+            t = repr(fld)
+            if t.endswith('.source.id'):
+                cols.append('source')
+            elif t.endswith('.target.id'):
+                cols.append('target')
+            elif t.endswith('.id'):
+                cols.append('edge_id')
+            elif 'orientation' in t:
+                cols.append('direction')
+                orient_str = t.startswith('str(') and t.endswith('.orientation)')
+            elif 'toWKT()' in t:
+                cols.append('wkt')
+                ctx.check(fld.parts[0] == '"' and fld.parts[-1] == '"\n' and len(fld.parts) == 3, 'C13.N', wfun,
+                          'the geometry is the last field, quoted, and ends the row', witness={'field': t}, node=wfun.node, key='wkt-quoted:%d' % h)
+            else:
+                cols.append(t)
+        ctx.check(cols == ['edge_id', 'source', 'target', 'direction', 'wkt'], 'C13.N', wfun, 'network CSV columns: id, source, target, direction, wkt (h=%d)' % h,
+                  witness={'columns written': cols, 'row': repr(Cat(rows[0].parts))}, node=wfun.node, key='cols')
+        hf = [repr(x) for x in head.split(Sym(sepn))] if head.parts else []
+        if h == 1:
+            ctx.check(len(hf) == 5 and hf[-1].endswith("\\n'") and out.parts[-1] is rows[0], 'C13.N', wfun,
+                      'with h=1 one header row of five names precedes the edges', witness={'header': hf}, node=wfun.node, key='hdr1')
+        else:
+            ctx.check(not hf, 'C13.N', wfun, 'with h=0 nothing precedes the edges', witness={'before the edges': hf}, node=wfun.node, key='hdr0')
     # a named format reads exactly this layout
     import os
     path = os.path.join(ctx.prog.root, 'resources', 'network_file_format')
@@ -479,10 +568,29 @@ def rule_N(ctx):
             bad.append({'orientation': val, 'reader': 'accepts a value that is none of the three constants'})
     ctx.check(not bad, 'C13.N', rl, 'each of the three orientation constants written by the writer is accepted unchanged by the reader (and nothing else is)',
               witness={'wrong cases': bad}, node=ifs[0], key='orientation')
-    ctx.recognise('str(edge.orientation)' in t and 'orientation = int(row[fmt.pos_direction])' in unparse(rl.node), 'C13.N', rl,
+    ctx.recognise(orient_str and 'orientation = int(row[fmt.pos_direction])' in unparse(rl.node), 'C13.N', rl,
               'orientation is written with str() and read back with int()', witness={}, node=rl.node, key='orient-io')
-    ctx.recognise("'\"' + edge.geom.toWKT() + '\"'" in t and 'TAB_OBS = wktLineStringToObs(geom, fmt.srid.upper())' in unparse(rl.node) and 'doublequote=True' in rt,
+    ctx.recognise('wkt' in cols and 'TAB_OBS = wktLineStringToObs(geom, fmt.srid.upper())' in unparse(rl.node) and 'doublequote=True' in rt,
               'C13.N', rl, 'geometry is written as quoted WKT and parsed back by wktLineStringToObs', witness={}, node=rl.node, key='geom')
+    # end nodes: the source node sits on the first vertex of the geometry, the target node on the last
+    wn = Walker(rl, loop_mode='skip')
+    nodes = {}
+    for o in wn.run(body_nodocstring(rl), State()):
+        if o.kind != 'return':
+            continue
+        for e in o.state.events:
+            if e.kind == 'call' and e.name == 'Node' and len(e.args) == 2:
+                nodes[vr(e.args[0])] = (vr(e.args[1]), e)
+    want = {'str(row[fmt.pos_source])': 'getFirstObs().position', 'str(row[fmt.pos_target])': 'getLastObs().position'}
+    if set(nodes) != set(want):
+        raise shape_error('readLineAndAddToNetwork: Node(source id, ...), Node(target id, ...) not found: %s' % sorted(nodes), rl.loc())
+    for k, suffix in want.items():
+        got, e = nodes[k]
+        ctx.check(got.endswith('.' + suffix) and 'Track(' in got or got.endswith('.' + suffix), 'C13.N', rl,
+                  'the %s node is placed on the %s vertex of the edge geometry' % ('source' if 'source' in k else 'target', 'first' if 'First' in suffix else 'last'),
+                  witness={'node id': k, 'placed at': got, 'expected': '<geometry>.' + suffix,
+                           'why': 'Network.addNode keeps the first coordinates seen for an id: a node first met as a target is stored at the wrong end of its edge'},
+                  node=e.node, key='end-node:' + ('source' if 'source' in k else 'target'))
     ctx.recognise('source = str(row[fmt.pos_source])' in unparse(rl.node) and 'target = str(row[fmt.pos_target])' in unparse(rl.node) and
               'edge_id = str(row[fmt.pos_edge_id])' in unparse(rl.node), 'C13.N', rl, 'edge id, source and target are read from their columns', witness={}, node=rl.node, key='ids')
 
@@ -500,10 +608,34 @@ def rule_W(ctx):
         and "makeCoords(x, y, z, 'ENU')" in pt
     ctx.recognise(ok, 'C13.W', p, 'parseWkt splits on the same ( ) , and blank and takes the first two numbers as x, y', witness={}, node=p.node, key='parsewkt')
     g = ctx.prog.func(NR + '.wktLineStringToObs')
-    gt = unparse(g.node)
-    ok = "coords_string.split(',')" in gt and "coords[i].strip().split(' ')" in gt and 'x = float(sl[0])' in gt and 'y = float(sl[1])' in gt and \
-        'for i in range(0, len(coords))' in gt
-    ctx.recognise(ok, 'C13.W', g, 'wktLineStringToObs reads every vertex, x then y', witness={}, node=g.node, key='wkt2obs')
+    wg = Walker(g, loop_mode='once')
+    wkt = g.params[0]
+    COORDS = "%s.split('(')[1].split(')')[0].split(',')" % wkt
+    ctors = []
+    for o in wg.run(body_nodocstring(g), State()):
+        for e in o.state.events:
+            if e.kind == 'call' and e.name in ('ENUCoords', 'GeoCoords', 'ECEFCoords') and not any(e.node is x.node for x in ctors):
+                ctors.append(e)
+    if len(ctors) < 3:
+        raise shape_error('wktLineStringToObs: coordinate constructors not found', g.loc())
+    for e in ctors:
+        lp = e.loops[-1] if e.loops else None
+        elem = None
+        if lp is not None and lp['kind'] == 'for' and isinstance(lp['node'].target, ast.Name):
+            lv = lp['node'].target.id
+            r = lp.get('range')
+            if r is not None and vr(r[0]) == '0' and vr(r[1]) == 'len(%s)' % COORDS and vr(r[2]) == '1':
+                elem = '%s[%s]' % (COORDS, lv)
+            elif r is None and vr(lp['iter']) == COORDS:
+                elem = lv
+        ctx.check(elem is not None, 'C13.W', g, 'wktLineStringToObs visits every vertex of the text between the parentheses, cut at the commas',
+                  witness={'loop': unparse(lp['node'].iter) if lp else None, 'expected list of vertices': COORDS}, node=e.node, key='wkt2obs-all:' + e.name)
+        if elem is None:
+            continue
+        want = ["%s.strip().split(' ')[%d]" % (elem, k) for k in (0, 1)]       # float() is transparent to the walker
+        got = [vr(a) for a in e.args[:2]]
+        ctx.check(got == want, 'C13.W', g, 'every vertex is read x then y (first and second blank-separated number)',
+                  witness={'constructor': e.name, 'arguments': got, 'expected': want}, node=e.node, key='wkt2obs-xy:' + e.name)
 
 
 RULES = [
